@@ -390,4 +390,82 @@ func removeInstrumentedWorker() {
 	if instrBin != "" {
 		_ = os.Remove(instrBin)
 	}
+	if raceBin != "" {
+		_ = os.Remove(raceBin)
+	}
+}
+
+var (
+	raceOnce sync.Once
+	raceBin  string
+	raceErr  string
+)
+
+// raceWorker builds (once per process) the worker binary with the race detector from the same source tree and
+// returns its path, or "" and the reason (the cases that ask for it are then skipped, never failed).
+func raceWorker() (string, string) {
+	raceOnce.Do(func() {
+		_, self, _, ok := runtime.Caller(0)
+		if !ok {
+			raceErr = "no-source-path"
+			return
+		}
+		hdir := filepath.Dir(filepath.Dir(filepath.Dir(self))) // …/harness
+		gm, err := os.ReadFile(filepath.Join(hdir, "go.mod"))
+		if err != nil {
+			raceErr = "no-harness-module"
+			return
+		}
+		repo, err := filepath.Abs(drv.RepoDir)
+		if err != nil {
+			raceErr = "repo-path"
+			return
+		}
+		base := "/verif/.build"
+		if wd, err := os.Getwd(); err == nil {
+			if _, err := os.Stat(filepath.Join(wd, ".build")); err == nil {
+				base = filepath.Join(wd, ".build")
+			}
+		}
+		h := sha1.Sum([]byte(repo))
+		dir := filepath.Join(base, fmt.Sprintf("c03-race-%x", h[:4]))
+		if err := os.MkdirAll(dir, 0o755); err != nil {
+			raceErr = "mkdir"
+			return
+		}
+		if old, _ := filepath.Glob(filepath.Join(dir, "worker-*")); old != nil {
+			for _, o := range old {
+				if st, err := os.Stat(o); err == nil && time.Since(st.ModTime()) > 2*time.Hour {
+					_ = os.Remove(o)
+				}
+			}
+		}
+		var lines []string
+		for _, l := range strings.Split(string(gm), "\n") {
+			if strings.HasPrefix(strings.TrimSpace(l), "replace github.com/yandex/pandora ") {
+				l = "replace github.com/yandex/pandora => " + repo
+			}
+			lines = append(lines, l)
+		}
+		if err := writeIfChanged(filepath.Join(dir, "go.mod"), strings.Join(lines, "\n")); err != nil {
+			raceErr = "write"
+			return
+		}
+		if gs, err := os.ReadFile(filepath.Join(repo, "go.sum")); err == nil {
+			_ = writeIfChanged(filepath.Join(dir, "go.sum"), string(gs))
+		}
+		bin := filepath.Join(dir, fmt.Sprintf("worker-%d", os.Getpid()))
+		cmd := exec.Command("go", "build", "-race", "-tags", "verif", "-modfile", filepath.Join(dir, "go.mod"), "-o", bin, "./cmd/c03")
+		cmd.Dir = hdir
+		cmd.Env = append(os.Environ(), "GOFLAGS=-mod=mod", "GOPROXY=off", "GOSUMDB=off", "GOTOOLCHAIN=local", "CGO_ENABLED=1")
+		t0 := time.Now()
+		if b, err := cmd.CombinedOutput(); err != nil {
+			raceErr = "race-build:" + strings.ReplaceAll(drv.Trunc(drv.Clean(string(b)), 300), " ", "_")
+			fmt.Fprintf(os.Stderr, "c03: race-detector worker not built: %s\n", raceErr)
+			return
+		}
+		fmt.Fprintf(os.Stderr, "c03: race-detector worker built in %.1fs\n", time.Since(t0).Seconds())
+		raceBin = bin
+	})
+	return raceBin, raceErr
 }
